@@ -19,6 +19,7 @@ import shutil
 import tempfile
 from fractions import Fraction
 
+import numpy as np
 import torch
 
 import common
@@ -196,8 +197,14 @@ def record_trace(rng):
     s, rbm = build(m, via_state, rng)
     ev = []
     cur = None
+    # the number of steps as the caller may hold it: a Python int, a numpy integer, or ONE 0-d tensor object passed
+    # to every call of the session (it is the caller's; after the calls it still says k)
+    kform = rng.choice(["int", "int", "np", "tensor"])
+    ksame = rng.choice([0, 1, 1, 2, 3]) if rng.random() < 0.5 else None
+    kobjs = {}
     for call in range(rng.randint(1, 3)):
-        k = rng.choice([0, 1, 1, 2, 3])
+        kval = ksame if ksame is not None else rng.choice([0, 1, 1, 2, 3])
+        k = kval if kform == "int" else np.int64(kval) if kform == "np" else kobjs.setdefault(kval, torch.tensor(kval))
         ow = rng.random() < 0.5
         with BernoulliRecorder() as rec:
             if via_state and cur is None and rng.random() < 0.5:
@@ -210,7 +217,7 @@ def record_trace(rng):
                 else:
                     ev.append(dict(e="Start", n=n, probs=d0["probs"], bits=d0["bits"]))
                     draws = rec.ev[1:]
-                ev.append(dict(e="Begin", v0=ev[-1]["bits"], k=k, ow=False))
+                ev.append(dict(e="Begin", v0=ev[-1]["bits"], k=kval, ow=False))
                 ev += [dict(e="Draw", probs=d["probs"], bits=d["bits"]) for d in draws]
                 ev.append(dict(e="End", ret=bitrows(out), bufAfter=ev[-1 - len(draws)]["v0"], same=False))
                 cur = out
@@ -237,7 +244,7 @@ def record_trace(rng):
                 out = s.sample(k, initial_state=init, overwrite=ow, num_samples=5)
             else:
                 out = rbm.gibbs_steps(k, init, overwrite=ow)
-            ev.append(dict(e="Begin", v0=v0, k=k, ow=ow))
+            ev.append(dict(e="Begin", v0=v0, k=kval, ow=ow))
             ev += [dict(e="Draw", probs=d["probs"], bits=d["bits"]) for d in rec.ev]
             shares = out is init or (out.numel() > 0 and out.untyped_storage().data_ptr() == init.untyped_storage().data_ptr())
             ev.append(dict(e="End", ret=bitrows(out), bufAfter=bitrows(init), same=bool(shares)))
@@ -245,6 +252,8 @@ def record_trace(rng):
                 if any(x not in (0.0, 1.0) for row in d["raw"] for x in row):
                     ev[-1]["nonbinary"] = True
             cur = out
+        if int(k) != kval:
+            ev[-1]["kchanged"] = int(k)          # the caller's own k object was written to
     return dict(m=m, ev=ev)
 
 
@@ -471,6 +480,11 @@ def run(tier, seed):
     for i in range(200 if quick else 2500):
         torch.manual_seed(rng.randrange(10 ** 6))
         ln = record_trace(rng)
+        kc = [e for e in ln["ev"] if "kchanged" in e]
+        if kc:
+            chk.violation("trace:callers-k-modified", dict(model=ln["m"], k_now=kc[0]["kchanged"],
+                                                           why="the object passed as the number of steps was written to"))
+            continue
         if not well_shaped(ln):
             chk.violation("trace:rejected:shape", dict(model=ln["m"], why="draw without probabilities/bits or non-binary sample",
                                                       events=[e["e"] for e in ln["ev"]]))
